@@ -180,14 +180,152 @@ def ret_sx(fn):
     return ir.sx(ir.ekids(rets[0])[0]) if len(rets) == 1 and ir.ekids(rets[0]) else None
 
 
+INST_DRIVER = ('#include "xtl/xclosure.hpp"\n'
+               'namespace wxtl { struct Obj { int v; bool operator==(const Obj& o) const { return v == o.v; } };\n'
+               'void use(Obj& o, Obj v) { xtl::xclosure_wrapper<Obj&> r(o); xtl::xclosure_wrapper<Obj> w(static_cast<Obj&&>(v));\n'
+               '  (void)r.get(); (void)w.get(); (void)&r; (void)&w; const auto& cr = r; const auto& cw = w; (void)cr.get(); (void)cw.get(); (void)&cr; (void)&cw; } }\n')
+
+
+def place_of(d, n, env, depth=0):
+    """what an expression of an INSTANTIATED wrapper member designates, with calls followed through their resolved callee:
+    ("stored",) the member m_wrappee; ("deref", x) / ("addr", x); ("var", name) a parameter"""
+    n = ir.strip(n)
+    while n.get("kind") in ("ImplicitCastExpr", "CXXStaticCastExpr", "CXXConstCastExpr", "CStyleCastExpr", "CXXFunctionalCastExpr", "ParenExpr", "MaterializeTemporaryExpr",
+                            "ExprWithCleanups", "CXXBindTemporaryExpr") and ir.ekids(n):
+        n = ir.strip(ir.ekids(n)[-1])
+    k = n.get("kind")
+    ks = ir.ekids(n)
+
+    def addr(x):
+        return x[1] if x[0] == "deref" else ("addr", x)
+
+    def deref(x):
+        return x[1] if x[0] == "addr" else ("deref", x)
+    if k == "MemberExpr" and n.get("name") == "m_wrappee":
+        return ("stored",)
+    if k == "DeclRefExpr":
+        nm = (n.get("referencedDecl") or {}).get("name")
+        if nm in env:
+            return env[nm]
+        dec = d.by_id.get((n.get("referencedDecl") or {}).get("id"))
+        if dec is not None and dec.get("kind") == "VarDecl" and ir.ekids(dec) and depth < 6:
+            return place_of(d, ir.ekids(dec)[-1], env, depth + 1)       # a local bound to a place
+        return ("var", nm)
+    if k == "CXXThisExpr":
+        return ("this",)
+    if k == "UnaryOperator" and n.get("opcode") == "*":
+        return deref(place_of(d, ks[0], env, depth))
+    if k == "UnaryOperator" and n.get("opcode") == "&":
+        return addr(place_of(d, ks[0], env, depth))
+    if k in ("CallExpr", "CXXMemberCallExpr") and depth < 6:
+        c = ir.strip(ks[0])
+        rid = c.get("referencedMemberDecl") if c.get("kind") == "MemberExpr" else (c.get("referencedDecl") or {}).get("id")
+        tgt = d.by_id.get(rid)
+        nm = (tgt or {}).get("name") or c.get("name") or (c.get("referencedDecl") or {}).get("name")
+        args = ks[1:]
+        if nm in ("move", "forward") and len(args) == 1:
+            return place_of(d, args[0], env, depth)
+        if nm in ("addressof", "__addressof") and len(args) == 1:
+            return addr(place_of(d, args[0], env, depth))
+        if tgt is not None and ir.body(tgt) is not None:
+            rets = [x for x in ir.walk_expr(ir.body(tgt)) if x.get("kind") == "ReturnStmt" and ir.ekids(x)]
+            if len(rets) == 1:
+                env2 = {p.get("name"): place_of(d, a, env, depth + 1) for p, a in zip(ir.params(tgt), args)}
+                return place_of(d, ir.ekids(rets[0])[0], env2, depth + 1)
+        return ("call", nm) + tuple(place_of(d, a, env, depth + 1) for a in args)
+    if k in ("CXXConstructExpr", "CXXTemporaryObjectExpr") and len(ks) == 1:
+        return place_of(d, ks[0], env, depth)
+    return ("expr", k)
+
+
+def pshow(x):
+    if x[0] == "stored":
+        return "m_wrappee"
+    if x[0] in ("deref", "addr"):
+        return ("*" if x[0] == "deref" else "&") + pshow(x[1])
+    if x[0] == "var":
+        return str(x[1])
+    return str(x)
+
+
 def rule_defuse(rep):
     rep.rule("C07.defuse", "inside xclosure_wrapper / xclosure_pointer: an lvalue closure stores the address of its reference parameter and "
                            "dereferences it, a value closure stores and returns the value; nothing but a constructor assigns the stored "
                            "pointer (no rebinding); assignment, swap and equality go through deref(); copy/move construction is defaulted")
+    from .. import fstring as fs
+    R = "C07.defuse"
+    # ---- (a) instantiated wrappers: what get(), operator&() and the constructors designate, with every helper followed through its resolved callee
+    di = cj.dump(INST_DRIVER, "xtl::")
+    rep.cmd(di.cmd)
+    found = {}
+    for cls in di.walk():
+        if cls.get("kind") != "ClassTemplateSpecializationDecl" or cls.get("name") != "xclosure_wrapper":
+            continue
+        targ = " ".join(ir.template_args(cls))
+        if "Obj" not in targ:
+            continue
+        is_ref = "&" in targ
+        kind = "lvalue-closure variant" if is_ref else "value-closure variant"
+        for fn in ir.kids(cls):
+            if fn.get("kind") not in ("CXXMethodDecl", "CXXConstructorDecl", "CXXConversionDecl") or not ir.has_body(fn):
+                continue
+            name = fn.get("name")
+            label = "xclosure_wrapper<%s>::%s" % (targ.replace("wxtl::", ""), name)
+            where = di.where(fn)
+            if fn.get("kind") == "CXXConstructorDecl":
+                if fn.get("explicitlyDefaulted") or fn.get("isImplicit") or not ir.params(fn):
+                    continue
+                inits = [k_ for k_ in ir.kids(fn) if k_.get("kind") == "CXXCtorInitializer" and (k_.get("anyInit") or {}).get("name") == "m_wrappee"]
+                if not inits or not ir.ekids(inits[0]):
+                    continue
+                got = place_of(di, ir.ekids(inits[0])[0], {})
+                pn = ir.params(fn)[0].get("name")
+                want = ("addr", ("var", pn)) if is_ref else ("var", pn)
+                found[("ctor", is_ref)] = True
+                (rep.holds if got == want else rep.violates)(R, label + "(%s)" % ir.wtype(ir.params(fn)[0]).replace("wxtl::", ""), "stores " + ("the address of its parameter" if is_ref else "its parameter"), where=where,
+                                                             detail="m_wrappee <- %s" % pshow(got) if got == want else "m_wrappee is initialised with `%s`, expected `%s`" % (pshow(got), pshow(want)))
+                continue
+            rets = [x for x in ir.walk_expr(ir.body(fn)) if x.get("kind") == "ReturnStmt" and ir.ekids(x)]
+            if name == "get" or fn.get("kind") == "CXXConversionDecl":
+                if len(rets) != 1:
+                    continue
+                got = place_of(di, ir.ekids(rets[0])[0], {})
+                want = ("deref", ("stored",)) if is_ref else ("stored",)
+                found[("get", is_ref)] = True
+                (rep.holds if got == want else rep.violates)(R, label, kind + ": designates the stored referent", where=where,
+                                                             detail="returns %s" % pshow(got) if got == want else "returns `%s`, expected `%s`" % (pshow(got), pshow(want)))
+            elif name == "operator&":
+                if len(rets) != 1:
+                    continue
+                got = place_of(di, ir.ekids(rets[0])[0], {})
+                want = ("stored",) if is_ref else ("addr", ("stored",))
+                found[("addr", is_ref)] = True
+                (rep.holds if got == want else rep.violates)(R, label, kind + ": address of the referent", where=where,
+                                                             detail="returns %s" % pshow(got) if got == want else "returns `%s`, expected `%s`" % (pshow(got), pshow(want)))
+    need = [(w_, r_) for w_ in ("ctor", "get", "addr") for r_ in (True, False)]
+    missing = [k_ for k_ in need if k_ not in found]
+    if missing:
+        rep.broke("instantiated xclosure_wrapper members not found: %s" % missing)
+    # ---- (b) the class-template patterns: assignment, swap, equality and no rebinding
     d = cj.dump('#include "xtl/xclosure.hpp"\n', "xtl::")
     rep.cmd(d.cmd)
-    R = "C07.defuse"
     found = {}
+
+    def referent(t, ps):
+        """the object a wrapper designates, in any spelling: deref(X.m_wrappee), X.deref(X.m_wrappee), X.get(), get() -> X ('this' or a parameter name)"""
+        while t[0] == "cast":
+            t = t[3]
+        if t[0] == "call" and ir.show(t[1]).endswith("deref") and len(t) == 3:
+            a = t[2]
+            if a in (("mem", ("this",), "m_wrappee"), ("ref", "m_wrappee")):
+                return "this"
+            if a[0] == "mem" and a[2] == "m_wrappee" and a[1][0] == "ref" and a[1][1] in ps:
+                return a[1][1]
+        if t[0] == "call" and len(t) == 2 and t[1] in (("ref", "get"), ("mem", ("this",), "get")):
+            return "this"
+        if t[0] == "call" and len(t) == 2 and t[1][0] == "mem" and t[1][2] == "get" and t[1][1][0] == "ref" and t[1][1][1] in ps:
+            return t[1][1][1]
+        return None
     for fn in ir.functions(d):
         cls = ir.enclosing_class(d, fn)
         if cls is None or cls.get("name") not in ("xclosure_wrapper", "xclosure_pointer") or not ir.is_template_pattern(d, fn):
@@ -197,6 +335,11 @@ def rule_defuse(rep):
         where = d.where(fn)
         ps = [p.get("name") for p in ir.params(fn)]
         label = "%s::%s" % (cname, name)
+        loc = fs.local_sx(fn)
+        for v_ in ir.walk_expr(fn):
+            # a reference local is an alias of what it was bound to, also when it is assigned through
+            if v_.get("kind") == "VarDecl" and "&" in ir.qtype(v_) and ir.ekids(v_):
+                loc[v_.get("name")] = ir.sx(ir.ekids(v_)[-1])
         # no rebinding: assignments whose left side is the stored member itself
         if fn.get("kind") != "CXXConstructorDecl":
             for n in ir.walk_expr(ir.body(fn)):
@@ -206,74 +349,55 @@ def rule_defuse(rep):
                         if cname == "xclosure_wrapper":
                             rep.violates(R, label, "stored pointer reassigned", where=d.where(n),
                                          detail="`%s` assigns the stored pointer/value itself: a reference closure would be rebound instead of written through" % d.text(n)[:60])
+        effects = [fs.subst_locals(ir.sx(s_), loc) for s_ in ir.kids(ir.body(fn)) if s_.get("kind") not in ("DeclStmt", "ReturnStmt", "NullStmt")] if ir.body(fn) else []
         rt = ret_sx(fn) if fn.get("kind") != "CXXConstructorDecl" else None
-        text_ret = (fn.get("type") or {}).get("qualType", "")
-        decl_text = d.text(fn).split("{")[0]
-        lvalue_variant = "!std::is_lvalue_reference" not in decl_text
-        if cname == "xclosure_wrapper" and name in ("get_storage_init", "deref", "get_pointer"):
-            p = ("ref", ps[0]) if ps else None
-            want = {("get_storage_init", True): ("un", "&", p), ("get_storage_init", False): p,
-                    ("deref", True): ("un", "*", p), ("deref", False): p,
-                    ("get_pointer", True): p, ("get_pointer", False): ("un", "&", p)}[(name, lvalue_variant)]
-            alts = [want]
-            if want == p:
-                alts += [("call", ("ref", "forward"), p), ("call", ("ref", "move"), p)]
-            if want == ("un", "&", p):
-                alts += [("call", ("ref", "addressof"), p)]
-            kind = "lvalue-closure variant" if lvalue_variant else "value-closure variant"
-            found[(name, lvalue_variant)] = True
-            if rt in alts:
-                rep.holds(R, label, kind, where=where, detail="returns " + ir.show(rt))
-            else:
-                rep.violates(R, label, kind, where=where, detail="must return `%s`, returns `%s`" % (ir.show(want), ir.show(rt) if rt else "?"))
-        elif cname == "xclosure_wrapper" and name == "operator=":
+        rt = fs.subst_locals(rt, loc) if rt is not None else None
+        if cname == "xclosure_wrapper" and name == "operator=":
             ptype = ir.wtype(ir.params(fn)[0]) if ir.params(fn) else ""
-            stmts = [s for s in ir.kids(ir.body(fn))]
-            first = ir.sx(stmts[0]) if stmts else None
-            deref_this = ("call", ("ref", "deref"), ("mem", ("this",), "m_wrappee"))
-            alt_deref = ("call", ("mem", ("this",), "deref"), ("mem", ("this",), "m_wrappee"))
             found[("operator=", ptype)] = True
             if "&&" in ptype and "self_type" in ptype:
-                ok = first is not None and first[0] == "call" and ir.show(first[1]).endswith("swap") and ("ref", ps[0]) in first[2:]
+                ok = False
+                for e in effects:
+                    if e[0] == "call" and ir.show(e[1]).endswith("swap"):
+                        args = e[2:]
+                        if len(args) == 1 and args[0] == ("ref", ps[0]) and e[1] in (("ref", "swap"), ("mem", ("this",), "swap")):
+                            ok = True
+                        if len(args) == 2 and {referent(args[0], ps), referent(args[1], ps)} == {"this", ps[0]}:
+                            ok = True
                 (rep.holds if ok else rep.violates)(R, label, "move assignment swaps referents", where=where,
-                                                    detail=ir.show(first) if ok else "expected swap(rhs), found `%s`" % (ir.show(first) if first else "?"))
+                                                    detail="exchanges the two referents" if ok else "expected swap(rhs) or a swap of the two referents, found `%s`" % "; ".join(ir.show(e)[:60] for e in effects))
             else:
-                ok = first is not None and first[0] == "bin" and first[1] == "=" and first[2] in (deref_this, alt_deref)
+                ok = False
+                for e in effects:
+                    if e[0] == "bin" and e[1] == "=" and referent(e[2], ps) == "this":
+                        src = e[3]
+                        while src[0] == "cast":
+                            src = src[3]
+                        if "self_type" in ptype or "xclosure_wrapper" in ptype:
+                            ok = referent(src, ps) == ps[0]
+                        else:
+                            ok = src in (("ref", ps[0]), ("call", ("ref", "forward"), ("ref", ps[0])), ("call", ("ref", "move"), ("ref", ps[0])))
                 (rep.holds if ok else rep.violates)(R, label, "assignment writes through deref()", where=where,
-                                                    detail=ir.show(first) if ok else "the target of the assignment must be deref(m_wrappee); found `%s`" % (ir.show(first) if first else "?"))
+                                                    detail="referent of *this <- %s" % ps[0] if ok else "no assignment whose target is the referent of *this and whose source is the operand; found `%s`" % "; ".join(ir.show(e)[:60] for e in effects))
         elif cname == "xclosure_wrapper" and name == "swap":
-            stmts = [s for s in ir.kids(ir.body(fn)) if s.get("kind") != "DeclStmt"]
-            first = ir.sx(stmts[0]) if stmts else None
-            ok = first is not None and first[0] == "call" and len(first) == 4 and all(a[0] == "call" and ir.show(a[1]).endswith("deref") for a in first[2:])
+            ok = any(e[0] == "call" and ir.show(e[1]).endswith("swap") and len(e) == 4 and {referent(e[2], ps), referent(e[3], ps)} == {"this", ps[0]} for e in effects)
             found[("swap",)] = True
             (rep.holds if ok else rep.violates)(R, label, "swap exchanges referent values", where=where,
-                                                detail=ir.show(first) if ok else "expected swap(deref(m_wrappee), deref(rhs.m_wrappee)); found `%s`" % (ir.show(first) if first else "?"))
-        elif cname == "xclosure_wrapper" and name in ("get", "operator&") or (cname == "xclosure_wrapper" and fn.get("kind") == "CXXConversionDecl"):
-            want_fn = "get_pointer" if name == "operator&" else "deref"
-            ok = rt is not None and rt[0] == "call" and ir.show(rt[1]).endswith(want_fn) and rt[2:] in ((("mem", ("this",), "m_wrappee"),), (("ref", "m_wrappee"),))
-            (rep.holds if ok else rep.violates)(R, label, "designates the stored referent", where=where,
-                                                detail=ir.show(rt) if ok else "expected %s(m_wrappee); found `%s`" % (want_fn, ir.show(rt) if rt else "?"))
-        elif cname == "xclosure_wrapper" and fn.get("kind") == "CXXConstructorDecl":
-            inits = [k for k in ir.kids(fn) if k.get("kind") == "CXXCtorInitializer"]
-            it = ir.sx(ir.ekids(inits[0])[0]) if inits and ir.ekids(inits[0]) else None
-            inner = it
-            while inner is not None and inner[0] in ("construct",) and len(inner) == 3:
-                inner = inner[2]
-            ok = inner is not None and inner[0] == "call" and ir.show(inner[1]).endswith("get_storage_init") and len(inner) == 3
-            arg = inner[2] if ok else None
-            if ok and arg not in (("ref", ps[0]), ("call", ("ref", "move"), ("ref", ps[0])), ("call", ("ref", "forward"), ("ref", ps[0]))):
-                ok = False
-            (rep.holds if ok else rep.violates)(R, label + "(%s)" % ir.wtype(ir.params(fn)[0]), "stores get_storage_init(parameter)", where=where,
-                                                detail=ir.show(it) if ok else "expected m_wrappee(get_storage_init<storing_type>(e)); found `%s`" % (ir.show(it) if it else "?"))
+                                                detail="swap of the two referents" if ok else "expected swap(deref(m_wrappee), deref(rhs.m_wrappee)); found `%s`" % "; ".join(ir.show(e)[:70] for e in effects))
+        elif cname == "xclosure_wrapper" and name == "equal":
+            ok = rt is not None and rt[0] == "bin" and rt[1] == "==" and {referent(rt[2], ps), referent(rt[3], ps)} == {"this", ps[0]}
+            (rep.holds if ok else rep.violates)(R, label, "equality compares the referents", where=where,
+                                                detail="referents compared" if ok else "expected deref(m_wrappee) == rhs.deref(rhs.m_wrappee); found `%s`" % (ir.show(rt) if rt else "?"))
         elif cname == "xclosure_pointer" and name in ("operator*", "operator->"):
+            inner = rt
+            while inner is not None and inner[0] == "cast":
+                inner = inner[3]
             if name == "operator*":
-                ok = rt in (("mem", ("this",), "m_wrappee"), ("ref", "m_wrappee"))
+                ok = inner in (("mem", ("this",), "m_wrappee"), ("ref", "m_wrappee"))
                 want = "m_wrappee"
             else:
-                inner = rt
-                while inner is not None and inner[0] == "cast":
-                    inner = inner[3]
-                ok = inner in (("call", ("ref", "addressof"), ("mem", ("this",), "m_wrappee")), ("un", "&", ("mem", ("this",), "m_wrappee")))
+                ok = inner in (("call", ("ref", "addressof"), ("mem", ("this",), "m_wrappee")), ("un", "&", ("mem", ("this",), "m_wrappee")),
+                               ("call", ("ref", "addressof"), ("ref", "m_wrappee")), ("un", "&", ("ref", "m_wrappee")))
                 want = "addressof(m_wrappee)"
             (rep.holds if ok else rep.violates)(R, label, "designates the stored referent", where=where,
                                                 detail=ir.show(rt) if ok else "expected %s; found `%s`" % (want, ir.show(rt) if rt else "?"))
@@ -293,10 +417,8 @@ def rule_defuse(rep):
             if cls is not None and cls.get("name") == "xclosure_wrapper" and ir.is_template_pattern(d, n):
                 rep.holds(R, "xclosure_wrapper::xclosure_wrapper(%s)" % ir.wtype(ir.params(n)[0]), "defaulted: the copy designates the same referent", where=d.where(n))
                 found[("defaulted", ir.wtype(ir.params(n)[0]))] = True
-    need = [("get_storage_init", True), ("get_storage_init", False), ("deref", True), ("deref", False), ("get_pointer", True), ("get_pointer", False), ("swap",)]
-    missing = [k for k in need if k not in found]
-    if missing:
-        rep.broke("xclosure_wrapper helper(s) not found: %s" % missing)
+    if ("swap",) not in found:
+        rep.broke("xclosure_wrapper::swap not found")
     if len([k for k in found if k[0] == "defaulted"]) < 2:
         rep.violates(R, "xclosure_wrapper", "copy/move constructors defaulted", detail="the copy and move constructors are no longer both defaulted: copying a wrapper may no longer designate the same referent")
 
